@@ -20,6 +20,9 @@ ST_TEXT = ("Store.tla is a file-system state machine (path -> configuration, con
   "(overwrites, two suffixes of one stem), checking ReallyCompressed and ReadAfterWrite on the model; behaviours are replayed in a temp directory and StoreTrace "
   "judges file existence, compression magic, column names/order, cells, dtype kinds, restriction = read-all-then-select, alias = method. ")
 CHECKS = {
+ "C13": dict(engine="Convert",
+   text="Convert.tla states the boundary contract: one record per row, one field per column in order, the format's own null exactly at the missing positions and never a sentinel, and import(export) = identity on names, order, cells, missing mask and the dtype of bool/int/float/str columns with a value. ConvertMC enumerates every 2-column frame of 1-3 rows with every missing mask; each is converted through ListOfDicts, JSON text, pandas and Arrow for random kind assignments, the intermediate object being inspected with the foreign library's own API, and judged by the ConvertTrace monitor.",
+   design="§3 C13", technique="TLA+ spec (Convert) + TLC exhaustive enumeration of frames/masks + monitor-style trace validation"),
  "C12": dict(engine="Store", text=ST_TEXT + "C12 owns write clauses and whole-file reads.", design="§3 C12",
    technique="TLA+ file-system machine (Store) enumerated by TLC + replay on real files + trace validation"),
  "C14": dict(engine="Store", text=ST_TEXT + "C14 owns reads with a restriction, an alias or a dtype/type mapping.", design="§3 C14",
@@ -68,6 +71,7 @@ CHECKS = {
    design="§3 C11", technique="TLA+ spec (VectorOps) + TLC exhaustive enumeration + monitor-style trace validation of real calls"),
 }
 ENGINES = [
+ dict(name="Convert", path="spec/Convert.tla", serves_properties=["C13"], kind_free_text="TLA+ boundary contract + ConvertMC + ConvertTrace"),
  dict(name="Store", path="spec/Store.tla", serves_properties=["C12", "C14"], kind_free_text="TLA+ file-system machine + StoreMC + StoreTrace"),
  dict(name="VectorCtor", path="spec/VectorCtor.tla", serves_properties=["C10"], kind_free_text="TLA+ construction/NA laws + VectorCtorMC + VectorCtorTrace monitor (TLC)"),
  dict(name="AggJit", path="spec/AggJit.tla", serves_properties=["C08"], kind_free_text="TLA+ JIT-state history machine + AggJitMC + AggJitTrace; harness/jit_runner.py subprocess executor"),
